@@ -52,6 +52,12 @@ def filter_cases(tier):
         out.append(("axioms", bw, n, keep, eom))
     for bw in BWS + [20.0, 40.0]:
         out.append(("tone", bw))
+    # the same law through Channel.modulate itself (which picks the bandwidth and the padding), standard and EOM path,
+    # including bandwidths whose rise time 480/bw is not a whole number of ns
+    for bw in [2.0, 7.0, 8.0, 13.0, 30.0, 50.0, 100.0]:
+        out.append(("tone-modulate", bw, None))
+    for eom_bw in [7.0, 20.0, 24.0, 40.0, 50.0, 90.0, 110.0, 300.0]:
+        out.append(("tone-modulate", 8.0, eom_bw))
     return out
 
 
@@ -114,6 +120,34 @@ def check_tone(bw):
     if abs(amp - 0.5) > 1e-3:
         return [("C14:tone-at-bandwidth", f"bw {bw}: amplitude {amp} instead of 0.5 ({len(x_full)} samples)")]
     return []
+
+
+def check_tone_modulate(bw, eom_bw):
+    """Steady-state gain of Channel.modulate (eom=False / True) for a tone at the respective bandwidth is 1/2."""
+    from fractions import Fraction
+
+    ch = chan(bw, eom_bw)
+    use = eom_bw or bw
+    pad = ch.eom_config.rise_time if eom_bw else ch.rise_time
+    f = use * 1e-3  # cycles per ns
+    per = 1000 / Fraction(use).limit_denominator(1000)  # period in ns (exact)
+    k = 1
+    while (k * per).denominator != 1 or k * per < 40:
+        k += 1
+    win = int(k * per)  # whole number of periods and of ns
+    lead = 6 * pad + 50  # transient of the zero padding
+    n = 2 * lead + win
+    t = np.arange(n)
+    x = np.sin(2 * np.pi * f * t)
+    y = np.asarray(ch.modulate(x, eom=bool(eom_bw)).as_array(detach=True), dtype=float)
+    if len(y) != n + 2 * pad:
+        return [(f"C14:modulate-length:{'eom' if eom_bw else 'std'}", f"bw {use}: {len(y)} samples for {n} + 2 x {pad}")]
+    seg = y[pad + lead: pad + lead + win]  # output frame: sample i is time i - pad
+    tt = t[lead: lead + win]
+    amp = 2 * abs(np.sum(seg * np.exp(-2j * np.pi * f * tt))) / win
+    if abs(amp - 0.5) > 4e-3:
+        return [(f"C14:tone-at-bandwidth:modulate:{'eom' if eom_bw else 'std'}", f"bandwidth {use} MHz (rise time {pad} ns): steady-state amplitude {amp:.4f} instead of 0.5")]
+    return [("@tone-modulate", "")]
 
 
 # ---- fall-time clause ----------------------------------------------------------------------------
@@ -232,6 +266,8 @@ def worker(case):
             return check_axioms(*case[1:])
         if k == "tone":
             return check_tone(case[1])
+        if k == "tone-modulate":
+            return check_tone_modulate(case[1], case[2])
         if k == "fall":
             return check_fall(*case[1:])
         if k == "fall-eom":
